@@ -379,3 +379,65 @@ def run(ctx, R):
     n6 = sqlshape.shape_rule(ctx, R, 'R17.6', [
         'placement.objects.consumer:_delete_consumer'])
     R.count('R17.6', n6, 1)
+
+
+ACQUIRE = ('placement.handlers.util:', 'placement.handlers.allocation:'
+           'inspect_consumers')
+
+
+def r177(ctx, R):
+    """Nothing touches the database after a handler's write has committed:
+    once the writer transaction of a request has returned, a later query (a
+    re-read for the response, a second write) can fail on its own - the
+    client is then told the request failed although its effect is stored.
+    The consumer acquisition that precedes an allocation write (projects,
+    users, consumer types, the consumer record: handlers.util and
+    inspect_consumers) is the documented exception and has its own clean-up
+    rules (R17.4)."""
+    E = ctx.effects
+    n = 0
+    for f in sorted(ctx.prog.funcs, key=lambda x: x.qname):
+        if not f.module.name.startswith('placement.handlers.') or \
+                f.module.name == 'placement.handlers.util':
+            continue
+        # inside a transaction scope a later statement shares the fate of
+        # the earlier ones: the rule is about what follows the scope
+        anc, scoped = f, False
+        while anc is not None:
+            scoped = scoped or bool(E.scope_kind(anc))
+            anc = anc.parent
+        if scoped:
+            continue
+        acc = []
+        for s in ctx.cg.calls_in(f):
+            ops = set()
+            for c in s.callees:
+                ops |= {op for op, _t in E.summary(c)}
+            if ops:
+                acc.append((C.stmt_of(s.node), s, ops))
+        main = [(st, s) for st, s, ops in acc if ops & set('IUD') and not any(
+            c.qbase.startswith(ACQUIRE) for c in s.callees)]
+        if not main:
+            continue
+        g = cfgmod.cfg_of(f)
+        for wst, w in main:
+            n += 1
+            reach = g.reachable_from(list(g.succ.get(wst, ())),
+                                     normal_only=True)
+            later = [(st, s) for st, s, _ops in acc if st is not wst
+                     and st in reach and not C._in_handler(st, f.node)]
+            R.ob('R17.7', '%s:after:%s' % (f.qname, src(w.node.func)),
+                 not later,
+                 'after the write has committed nothing in the handler goes '
+                 'to the database again before the response',
+                 ['line %d %s' % (st.lineno, src(s.node.func))
+                  for st, s in later], func=f, node=wst)
+    R.count('R17.7', n, 20)
+
+
+_run_c17b = run
+
+
+def run(ctx, R):
+    _run_c17b(ctx, R)
+    r177(ctx, R)
